@@ -1,0 +1,166 @@
+//! Simulation seams. Only compiled with `--cfg passage_verif`; never part of a shipped build.
+//!
+//! `net` provides in-memory stand-ins for `tokio::net::{TcpListener, TcpStream}` with the method
+//! names the listener uses, backed by a thread-local registry a simulator connects to. `clock`
+//! provides a `SystemTime` whose `now()` can be overridden per thread.
+
+pub mod net {
+    use std::cell::RefCell;
+    use std::collections::HashMap;
+    use std::io;
+    use std::net::SocketAddr;
+    use std::pin::Pin;
+    use std::task::{Context, Poll};
+    use tokio::io::{AsyncRead, AsyncWrite, ReadBuf};
+    use tokio::net::ToSocketAddrs;
+    use tokio::sync::Mutex;
+    use tokio::sync::mpsc::{UnboundedReceiver, UnboundedSender, unbounded_channel};
+    use tokio::time::Instant;
+
+    /// Any duplex byte stream the simulator hands in as a "socket".
+    pub trait SimIo: AsyncRead + AsyncWrite + Unpin + Send + Sync {}
+    impl<T: AsyncRead + AsyncWrite + Unpin + Send + Sync> SimIo for T {}
+
+    thread_local! {
+        static LISTENERS: RefCell<HashMap<SocketAddr, UnboundedSender<(TcpStream, SocketAddr)>>> = RefCell::new(HashMap::new());
+        static ACCEPT_LOG: RefCell<Vec<(Instant, SocketAddr)>> = const { RefCell::new(Vec::new()) };
+    }
+
+    pub struct TcpStream {
+        inner: Box<dyn SimIo>,
+    }
+
+    impl TcpStream {
+        pub fn from_sim(inner: Box<dyn SimIo>) -> Self {
+            Self { inner }
+        }
+    }
+
+    impl AsyncRead for TcpStream {
+        fn poll_read(
+            self: Pin<&mut Self>,
+            cx: &mut Context<'_>,
+            buf: &mut ReadBuf<'_>,
+        ) -> Poll<io::Result<()>> {
+            Pin::new(&mut *self.get_mut().inner).poll_read(cx, buf)
+        }
+    }
+
+    impl AsyncWrite for TcpStream {
+        fn poll_write(
+            self: Pin<&mut Self>,
+            cx: &mut Context<'_>,
+            buf: &[u8],
+        ) -> Poll<io::Result<usize>> {
+            Pin::new(&mut *self.get_mut().inner).poll_write(cx, buf)
+        }
+
+        fn poll_flush(self: Pin<&mut Self>, cx: &mut Context<'_>) -> Poll<io::Result<()>> {
+            Pin::new(&mut *self.get_mut().inner).poll_flush(cx)
+        }
+
+        fn poll_shutdown(self: Pin<&mut Self>, cx: &mut Context<'_>) -> Poll<io::Result<()>> {
+            Pin::new(&mut *self.get_mut().inner).poll_shutdown(cx)
+        }
+    }
+
+    pub struct TcpListener {
+        addr: SocketAddr,
+        queue: Mutex<UnboundedReceiver<(TcpStream, SocketAddr)>>,
+    }
+
+    impl TcpListener {
+        pub async fn bind<A: ToSocketAddrs>(addr: A) -> io::Result<Self> {
+            let addr = tokio::net::lookup_host(addr)
+                .await?
+                .next()
+                .ok_or_else(|| io::Error::new(io::ErrorKind::InvalidInput, "no address"))?;
+            let (tx, rx) = unbounded_channel();
+            let taken = LISTENERS.with(|l| {
+                let mut l = l.borrow_mut();
+                if l.contains_key(&addr) {
+                    return true;
+                }
+                l.insert(addr, tx);
+                false
+            });
+            if taken {
+                return Err(io::Error::new(io::ErrorKind::AddrInUse, "address in use"));
+            }
+            Ok(Self {
+                addr,
+                queue: Mutex::new(rx),
+            })
+        }
+
+        pub async fn accept(&self) -> io::Result<(TcpStream, SocketAddr)> {
+            let mut queue = self.queue.lock().await;
+            match queue.recv().await {
+                Some((stream, peer)) => {
+                    ACCEPT_LOG.with(|l| l.borrow_mut().push((Instant::now(), peer)));
+                    Ok((stream, peer))
+                }
+                None => Err(io::Error::new(io::ErrorKind::Other, "listener closed")),
+            }
+        }
+    }
+
+    impl Drop for TcpListener {
+        fn drop(&mut self) {
+            let _ = LISTENERS.try_with(|l| l.borrow_mut().remove(&self.addr));
+        }
+    }
+
+    /// Whether a listener is bound to `addr` on this thread.
+    pub fn is_bound(addr: &SocketAddr) -> bool {
+        LISTENERS.with(|l| l.borrow().contains_key(addr))
+    }
+
+    /// Queues a connection from `peer` for the listener bound to `addr` on this thread.
+    pub fn connect(addr: &SocketAddr, peer: SocketAddr, io: Box<dyn SimIo>) -> io::Result<()> {
+        LISTENERS.with(|l| {
+            let l = l.borrow();
+            let tx = l
+                .get(addr)
+                .ok_or_else(|| io::Error::new(io::ErrorKind::ConnectionRefused, "not bound"))?;
+            tx.send((TcpStream::from_sim(io), peer))
+                .map_err(|_| io::Error::new(io::ErrorKind::ConnectionRefused, "listener gone"))
+        })
+    }
+
+    /// Drains the (virtual time, peer) log of accepted connections of this thread.
+    pub fn take_accept_log() -> Vec<(Instant, SocketAddr)> {
+        ACCEPT_LOG.with(|l| std::mem::take(&mut *l.borrow_mut()))
+    }
+
+    /// Forgets all listeners and the accept log of this thread.
+    pub fn reset() {
+        LISTENERS.with(|l| l.borrow_mut().clear());
+        ACCEPT_LOG.with(|l| l.borrow_mut().clear());
+    }
+}
+
+pub mod clock {
+    use std::cell::RefCell;
+
+    thread_local! {
+        static WALL: RefCell<Option<Box<dyn Fn() -> std::time::SystemTime>>> = const { RefCell::new(None) };
+    }
+
+    /// Stand-in for `std::time::SystemTime` (only `now()` is needed).
+    pub struct SystemTime;
+
+    impl SystemTime {
+        pub fn now() -> std::time::SystemTime {
+            WALL.with(|w| match &*w.borrow() {
+                Some(f) => f(),
+                None => std::time::SystemTime::now(),
+            })
+        }
+    }
+
+    /// Installs (or removes) the wall clock of this thread.
+    pub fn set_wall(f: Option<Box<dyn Fn() -> std::time::SystemTime>>) {
+        WALL.with(|w| *w.borrow_mut() = f);
+    }
+}
